@@ -57,13 +57,15 @@ class Retarget(Machine):
     REAL = ["all menpo alignment classes, Targetable.set_target, copy, GeneralizedProcrustesAnalysis"]
     STUB = []
     ASSUMPTIONS = ["point sets in general position (generator enforces minimum pairwise distance and rank)",
-                   "the caller never edits a target array after passing it (shared by documented design)",
+                   "the caller edits a target array after passing it only to set that same point set again "
+                   "(reset_same_target); otherwise passed arrays are left alone (shared by documented design)",
                    "pseudoinverses of TPS/PWA are exercised as noise but not re-targeted (their construction "
                    "options are not well defined)"]
     REQUIRED_PROBES = tuple("retarget2_" + k for k in KINDS) + (
         "rejected_n_points", "rejected_n_dims", "rejected_between_accepted", "set_target_on_copy",
         "mirror_needed_allow_off", "mirror_needed_allow_on", "similarity_rotation_off",
-        "tps_floor_matters", "gpa_checked", "gpa_not_converged", "noise_before_retarget", "pinv_retargeted")
+        "tps_floor_matters", "gpa_checked", "gpa_not_converged", "noise_before_retarget", "pinv_retargeted",
+        "integer_dtype_first_target", "same_target_reset_after_inplace_edit")
 
     @classmethod
     def swarm(cls, rng, tier):
@@ -77,11 +79,13 @@ class Retarget(Machine):
         if r < 0.22:
             return {"op": "new", "kind": rng.choice(cfg["kinds"]), "bits": rng.getrandbits(4),
                     "seed": rng.getrandbits(32), "n": rng.randrange(4, 10), "d3": int(cfg["d3"] and rng.random() < 0.6),
-                    "mode": rng.randrange(4), "dst": rng.randrange(64)}
+                    "mode": rng.randrange(4), "dst": rng.randrange(64), "int": int(rng.random() < 0.2)}
         if r < 0.62:
             return {"op": "set_target", "i": rng.randrange(64), "seed": rng.getrandbits(32),
                     "mode": rng.randrange(4)}
-        if r < 0.72:
+        if r < 0.66:
+            return {"op": "reset_same_target", "i": rng.randrange(64), "seed": rng.getrandbits(32), "how": rng.randrange(3)}
+        if r < 0.74:
             return {"op": "set_target_bad", "i": rng.randrange(64), "mode": rng.randrange(3)}
         if r < 0.80:
             return {"op": "copy", "i": rng.randrange(64), "dst": rng.randrange(64)}
@@ -202,6 +206,10 @@ class Retarget(Machine):
         e.sets, e.is_copy, e.since_noise, e.since_reject = 0, False, False, False
         e.trilist = None
         tgt = self._target_array(e, op["seed"] ^ 0x1234, op["mode"] % 4)
+        if op.get("int"):
+            # the first target given as an integer-dtype array (pixel positions); PointCloud keeps the dtype
+            tgt = np.round(tgt * 3.0).astype(np.int64)
+            self.ctx.probe("integer_dtype_first_target")
         trimesh = kind == "PiecewiseAffine" and opts.get("src_trimesh")
         srcobj = self._pass(src, trimesh=trimesh)
         if trimesh:
@@ -247,6 +255,42 @@ class Retarget(Machine):
             ctx.probe("mirror_needed_allow_on" if e.opts["allow_mirror"] else "mirror_needed_allow_off")
         if e.kind == "AlignmentSimilarity" and not e.opts["rotation"]:
             ctx.probe("similarity_rotation_off")
+        e.expect = self._map(e.al, e.probe)
+
+    def _op_reset_same_target(self, op):
+        """The caller edits, in place, the array of the target it set last (the alignment holds it by reference,
+        by documented design) and calls set_target with the same point set again - as the same object, wrapped
+        in a new PointCloud around the same buffer, or as an equal-valued copy.  After that call the alignment
+        must again be indistinguishable from a fresh one to those values."""
+        ctx = self.ctx
+        if not self.pool:
+            return
+        e = self.pool[op["i"] % len(self.pool)]
+        cur = e.al.target
+        if not np.array_equal(cur.points, e.tgt) or cur.points.dtype.kind != "f" or not cur.points.flags.writeable:
+            return   # out of sync after a noise operation (target is the aligned source then)
+        others = [x for x in self.pool if x is not e and (x.al.target is cur or x.al.source is cur)]
+        if others or getattr(e, "is_pinv", False) or cur is e.al.source:
+            return   # another alignment holds this point set (as its target or - for a pseudoinverse - its source)
+        g = rs(op["seed"])
+        cur.points[...] = cur.points + g.randn(*cur.points.shape) * 0.05 * np.abs(e.src).max()
+        new_vals = cur.points.copy()
+        for k, (pc, snap, tl) in enumerate(self.passed):
+            if pc is cur or np.shares_memory(pc.points, cur.points):
+                self.passed[k] = (pc, new_vals.copy(), tl)
+        how = op["how"] % 3
+        arg = cur if how == 0 else (PointCloud(cur.points, copy=False) if how == 1 else PointCloud(new_vals.copy()))
+        if how != 0:
+            self.passed.append((arg, arg.points.copy(), None))
+        try:
+            e.al.set_target(arg)
+        except Exception as ex:
+            ctx.fail("retarget_equals_fresh", "set_target_raised_" + e.kind, repr(ex))
+            return
+        ctx.probe("same_target_reset_after_inplace_edit")
+        e.tgt = new_vals
+        e.sets += 1
+        self._compare_with_fresh(e)
         e.expect = self._map(e.al, e.probe)
 
     def _compare_with_fresh(self, e):
@@ -349,7 +393,7 @@ class Retarget(Machine):
                     n = Entry()
                     n.__dict__.update(e.__dict__)
                     n.al, n.is_copy, n.is_pinv = p, True, True
-                    n.src = np.array(p.source.points)
+                    n.src = np.array(p.source.points, dtype=float)
                     n.tgt = np.array(p.target.points)
                     n.sets = 0
                     n.probe = self._probe_points(n)
